@@ -105,6 +105,7 @@ type impObs struct {
 type exitCase struct {
 	Entry string `json:"entry"`
 	Src   string `json:"src"`
+	Path  string `json:"path"` // selector path from the logger value to the value whose Fatal method is called
 	Via   string `json:"via"`
 	Depth int    `json:"depth"`
 	RecAt int    `json:"recAt"`
@@ -618,6 +619,15 @@ func exitCall(c *exitCase) (setup, call string) {
 	case "SlogBridge":
 		setup = "lg := slog.NewLogLogger(slog.NewTextHandler(io.Discard, nil), slog.LevelInfo); "
 		recv = "lg"
+	case "ZeroVar":
+		setup = "var lg log.Logger; "
+		recv = "lg"
+	case "NewBuiltin":
+		setup = "lg := new(log.Logger); "
+		recv = "lg"
+	}
+	if recv != "" && c.Path != "" {
+		recv += "." + strings.TrimSuffix(c.Path, ".")
 	}
 	fn, args := "", ""
 	switch c.Entry {
